@@ -19,6 +19,11 @@ impl SharedBuf {
     pub fn bytes(&self) -> Vec<u8> {
         self.data.borrow().clone()
     }
+    /// Same as `bytes` (use where `std::io::Read` is in scope, whose by-value
+    /// `bytes()` would otherwise be selected).
+    pub fn contents(&self) -> Vec<u8> {
+        self.data.borrow().clone()
+    }
     pub fn handle(&self) -> Rc<RefCell<Vec<u8>>> {
         self.data.clone()
     }
